@@ -25,7 +25,9 @@ POOL = ["", "k", "k1", "None", "sekret", "ž", "a b", "0", "13", "c", "0c", "Moz
         # strings that differ only in white space at their edges, or in letter case
         " ", " k", "k ", "k\n", "\tk", "\u00a0k", "K", "sekret ", "Sekret",
         # strings that differ only in characters outside Latin-1 (and one pair inside it)
-        "š", "heslo-ž", "heslo-š", "ключ-Иван", "ключ-Пётр", "😀", "😁", "é", "è"]
+        "š", "heslo-ž", "heslo-š", "ключ-Иван", "ключ-Пётр", "😀", "😁", "é", "è",
+        # characters that mean something to %-formatting, str.format and templates
+        "100%", "a%%b", "key%s", "%d", "%(x)s", "{0}", "{}", "$x"]
 
 
 def mk(T, t0, t1, s0, c0, s1, c1):
